@@ -46,11 +46,12 @@ func init() {
 		Level:       "Sound static check of the structural necessary conditions: no double encoding, existing query kept, correct response-mode selection, html/template with quoted slots and slot/field agreement. Value-level round trips are stdlib behaviour and not decided.",
 		Note:        "Trusted: go/types+go/cfg, net/url, html/template. One known finding (URL-context slot vs custom schemes) is listed in known_findings.json.",
 		Technique:   "static analysis: encoding-level value-flow rule over typed terms, template parse + HTML attribute tokenizer, must-facts dataflow for mode selection",
-		Rules:       []string{"E1", "E8.enc"},
+		Rules:       []string{"E1", "E8.enc", "E8.fmt"},
 		Run: func(c *Ctx) {
 			RunE1(c, "C11", obs)
 			RunEncodingLevels(c, []string{"op", "client", "client/rp", "client/rs", "http", "oidc"})
 			RunFormPostTemplate(c)
+			RunFormatStrings(c, []string{"op", "oidc", "client", "client/rp", "client/rs", "http", "crypto"})
 		},
 	})
 }
